@@ -13,7 +13,7 @@ import (
 
 func init() {
 	register(&Property{
-		ID: "C14",
+		ID:          "C14",
 		Explanation: "A non-interference argument by construction, each step a rule. R1 (key provenance): the key of every TTLMap.Get/Set in the rate limiter and of every connections[...] access in the connection limiter is, unchanged, the token returned by the extractor for the current request (followed from the Extract call through the call arguments into the keyed access). R2 (decision slice): the admission comparison of the connection limiter mentions only connections[key], the configured maximum and the request's own amount (normal form; no total, no len of the map, no iteration over it); on the rate-limiter side the bucket code (construction, update, consume, rollback) reads no package-level variable and no limiter field, so a bucket set depends only on its own history and the clock. R3 (eviction): in the TTL map the space-freeing routine is called only on the path that inserts a NEW key, only on the len >= capacity edge and for exactly 1 entry; it removes expired entries first and otherwise pops the heap, whose order is strictly by expiry; Get deletes only on the expired edge, only the entry found under its own key, removing that very entry's heap item unconditionally (heap.Remove with the item's own index).",
 		NotDecided: []string{
 			"heap correctness (container/heap, trusted); that the projection of each source's decisions equals its solo run is the consequence of R1-R3 argued on paper, not replayed",
@@ -341,7 +341,10 @@ func c14Eviction(p *Prog, r *Report) {
 			if c.Common().StaticCallee() != remLastF {
 				continue
 			}
-			isExp := func(in ssa.Instruction) bool { cc := CallCommonOf(in); return cc != nil && cc.StaticCallee() == remExpF }
+			isExp := func(in ssa.Instruction) bool {
+				cc := CallCommonOf(in)
+				return cc != nil && cc.StaticCallee() == remExpF
+			}
 			r.Check(!ReachableAvoiding(f, nil, c, isExp, nil), "C14.R3", "collections.TTLMap: expired entries are dropped before any live one, in "+FName(f), p.InstrPos(c), "RemoveExpired precedes RemoveLastUsed", "a live entry can be evicted while expired ones remain")
 		}
 	}
@@ -448,5 +451,7 @@ func mutantsC14() []Mutant {
 		{Name: "evict-live-before-expired", File: tm, Old: "\tremoved := m.RemoveExpired(count)\n\tif removed >= count {\n\t\treturn\n\t}\n\tm.RemoveLastUsed(count - removed)", New: "\tm.RemoveLastUsed(count)", Expect: "C14.R3"},
 		{Name: "get-deletes-unexpired", File: tm, Old: "\tif expired {\n\t\tm.lockNDel(mapEl)\n\t\treturn nil, false\n\t}", New: "\tif expired || value == nil {\n\t\tm.lockNDel(mapEl)\n\t\treturn nil, false\n\t}", Expect: "C14.R3"},
 		{Name: "bucket-reads-global", File: "ratelimit/bucket.go", Old: "\tif tokens > tb.burst {\n\t\treturn UndefinedDelay", New: "\tif tokens > tb.burst || globalPressure > 0 {\n\t\treturn UndefinedDelay", More: []Edit{{"ratelimit/bucket.go", "// UndefinedDelay  default delay.", "var globalPressure int64\n\n// UndefinedDelay  default delay."}}, Expect: "C14.R2"},
+		{Name: "map-sized-before-options", File: "ratelimit/tokenlimiter.go", Old: "\tsetDefaults(tl)\n\ttl.bucketSets = collections.NewTTLMap(tl.capacity)\n\treturn tl, nil", New: "\treturn tl, nil", More: []Edit{{"ratelimit/tokenlimiter.go", "\tfor _, o := range opts {\n\t\tif err := o(tl); err != nil {\n\t\t\treturn nil, err\n\t\t}\n\t}\n", "\tsetDefaults(tl)\n\ttl.bucketSets = collections.NewTTLMap(tl.capacity)\n\tfor _, o := range opts {\n\t\tif err := o(tl); err != nil {\n\t\t\treturn nil, err\n\t\t}\n\t}\n"}}, Expect: "C14.R4"},
+		{Name: "clientip-canonicalised-unchecked", File: "utils/source.go", Old: "\treturn host, 1, nil", New: "\treturn net.ParseIP(host).String(), 1, nil", Expect: "C14.R5"},
 	}
 }
